@@ -61,6 +61,7 @@ impl File {
     #[verifier::external_body]
     pub fn into_raw_fd(self) -> (r: RawFd) requires false ensures r as int == self.id@ { unimplemented!() }
 }
+// R12 target: one-element descriptor list
 #[verifier::external_body]
 pub fn fd_slice1(fd: RawFd) -> (r: Option<&'static [RawFd]>) ensures opt_rawfds(r) == seq![fd as int] { unimplemented!() }
 pub open spec fn file_ids(v: Seq<File>) -> Seq<int> { v.map(|i: int, f: File| f.id@) }
@@ -169,8 +170,10 @@ impl VhostUserConfigFlags {
     pub const WRITABLE: VhostUserConfigFlags = VhostUserConfigFlags { bits: 0x1 };
     pub const LIVE_MIGRATION: VhostUserConfigFlags = VhostUserConfigFlags { bits: 0x2 };
     pub fn bits(&self) -> (r: u32) ensures r == self.bits { self.bits }
+    // assumed: A-BITFLAGS (value proved-by: c01_flag_tables)
     #[verifier::external_body]
     pub fn all() -> (r: VhostUserConfigFlags) ensures r.bits == 3 { unimplemented!() }
+    // assumed: A-BITFLAGS (value proved-by: c01_flag_tables)
     #[verifier::external_body]
     pub fn from_bits(b: u32) -> (r: Option<VhostUserConfigFlags>)
         ensures (b & !3u32 == 0) ==> r == Some(VhostUserConfigFlags { bits: b }), (b & !3u32 != 0) ==> r is None
@@ -182,6 +185,7 @@ pub struct VhostUserMMapFlags { pub bits: u64 }
 impl VhostUserMMapFlags {
     pub const WRITABLE: VhostUserMMapFlags = VhostUserMMapFlags { bits: 0x1 };
     pub fn bits(&self) -> (r: u64) ensures r == self.bits { self.bits }
+    // assumed: A-BITFLAGS (value proved-by: c01_flag_tables)
     #[verifier::external_body]
     pub fn from_bits(b: u64) -> (r: Option<VhostUserMMapFlags>)
         ensures (b & !1u64 == 0) ==> r == Some(VhostUserMMapFlags { bits: b }), (b & !1u64 != 0) ==> r is None
@@ -207,28 +211,35 @@ pub open spec fn is_reply_for_spec<R: Req>(h: VhostUserMsgHeader<R>, req: VhostU
     R::spec_try_from(h.request) is Some && h.request == req.request && (h.flags & 4) != 0 && (req.flags & 4) == 0
 }
 impl<R: Req> VhostUserMsgHeader<R> {
+    // proved-by: c01_hdr_new_frontend / c01_hdr_accessors / c01_hdr_valid_* (kani, message.rs: header constructor, accessors and validity on the real struct, all bit patterns)
     #[verifier::external_body]
     pub fn new(request: R, flags: u32, size: u32) -> (r: Self)
         ensures r.request == request.code(), r.flags == (flags & 0xc) | 1, r.size == size,
             flags == 0 ==> r.flags == 1, flags == 4 ==> r.flags == 5, flags == 8 ==> r.flags == 9, flags == 0xc ==> r.flags == 0xd,
     { unimplemented!() }
+    // proved-by: c01_hdr_new_frontend / c01_hdr_accessors / c01_hdr_valid_* (kani, message.rs: header constructor, accessors and validity on the real struct, all bit patterns)
     #[verifier::external_body]
     pub fn get_code(&self) -> (r: Result<R>)
         ensures match R::spec_try_from(self.request) {
             Some(c) => r == Ok::<R, Error>(c) && c.code() == self.request,
             None => r == Err::<R, Error>(Error::InvalidMessage) }
     { unimplemented!() }
+    // proved-by: c01_hdr_new_frontend / c01_hdr_accessors / c01_hdr_valid_* (kani, message.rs: header constructor, accessors and validity on the real struct, all bit patterns)
     #[verifier::external_body]
     pub fn get_version(&self) -> (r: u32) ensures r == self.flags & 3 { unimplemented!() }
+    // proved-by: c01_hdr_new_frontend / c01_hdr_accessors / c01_hdr_valid_* (kani, message.rs: header constructor, accessors and validity on the real struct, all bit patterns)
     #[verifier::external_body]
     pub fn is_reply(&self) -> (r: bool) ensures r == (self.flags & 4 != 0) { unimplemented!() }
+    // proved-by: c01_hdr_new_frontend / c01_hdr_accessors / c01_hdr_valid_* (kani, message.rs: header constructor, accessors and validity on the real struct, all bit patterns)
     #[verifier::external_body]
     pub fn set_reply(&mut self, is_reply: bool)
         ensures final(self).request == old(self).request, final(self).size == old(self).size,
             final(self).flags == (if is_reply { old(self).flags | 4 } else { old(self).flags & !4u32 })
     { unimplemented!() }
+    // proved-by: c01_hdr_new_frontend / c01_hdr_accessors / c01_hdr_valid_* (kani, message.rs: header constructor, accessors and validity on the real struct, all bit patterns)
     #[verifier::external_body]
     pub fn is_need_reply(&self) -> (r: bool) ensures r == (self.flags & 8 != 0) { unimplemented!() }
+    // proved-by: c01_hdr_new_frontend / c01_hdr_accessors / c01_hdr_valid_* (kani, message.rs: header constructor, accessors and validity on the real struct, all bit patterns)
     #[verifier::external_body]
     pub fn set_need_reply(&mut self, need_reply: bool)
         ensures final(self).request == old(self).request, final(self).size == old(self).size,
@@ -239,10 +250,12 @@ impl<R: Req> VhostUserMsgHeader<R> {
     pub fn is_reply_for(&self, req: &VhostUserMsgHeader<R>) -> (r: bool) ensures r == is_reply_for_spec(*self, *req) { unimplemented!() }
     #[verifier::external_body]
     pub fn get_size(&self) -> (r: u32) ensures r == self.size { unimplemented!() }
+    // proved-by: c01_hdr_new_frontend / c01_hdr_accessors / c01_hdr_valid_* (kani, message.rs: header constructor, accessors and validity on the real struct, all bit patterns)
     #[verifier::external_body]
     pub fn set_size(&mut self, size: u32)
         ensures final(self).request == old(self).request, final(self).flags == old(self).flags, final(self).size == size
     { unimplemented!() }
+    // proved-by: c01_hdr_new_frontend / c01_hdr_accessors / c01_hdr_valid_* (kani, message.rs: header constructor, accessors and validity on the real struct, all bit patterns)
     #[verifier::external_body]
     pub fn is_valid(&self) -> (r: bool) ensures r == hdr_valid_spec(*self) { unimplemented!() }
 }
